@@ -273,8 +273,8 @@ def run_case(kind, grid, li, quad, ei, rel):
             g2 = tuple(x + rel[1] for x in grid)
             b = run(d, g=g2)
             # ages are differences of calendar values: shifting the calendar by s costs about s x 1e-16 in every age,
-            # so the comparison is relaxed in proportion to the shift (1e-13 relative for small shifts, 1e-11 for 100000)
-            return diff(a, b, dsm_impl.scale_of(a, grid) * max(1e-3, abs(rel[1]) * 1e-6))
+            # so the comparison is relaxed in proportion to the shift (1e-12 relative for small shifts, 1e-10 for 100000; a dependence on the calendar origin would be many orders larger)
+            return diff(a, b, dsm_impl.scale_of(a, grid) * max(1e-2, abs(rel[1]) * 1e-5))
         raise ValueError(r)
 
     st, d = attempt(go)
